@@ -23,8 +23,8 @@ vars == <<l, bad>>
 
 Has(ev, f) == f \in DOMAIN ev
 
-\* p mod 2N from the low words (2N divides 2^17, two's complement makes this exact for negative p)
-PMod(ev) == (ev.pw[1] + 65536 * (ev.pw[2] % 2)) % (2 * ev.N)
+\* p mod 2N from the low words (2N divides 2^28, two's complement makes this exact for negative p)
+PMod(ev) == (ev.pw[1] + 65536 * (ev.pw[2] % 4096)) % (2 * ev.N)
 
 Input(ev) == IF Has(ev, "in") THEN [x \in Idx(ev.N) |-> ev.in[x + 1]] ELSE [x \in Idx(ev.N) |-> x + 1]
 
